@@ -502,7 +502,7 @@ Theorem lstep_new_refines (w : world) p o r :
   lstep p o = LNew r -> snd (step w o) = OkNew -> fst (step w o) = push w (abs r).
 Proof.
   intros Hp Hw Hno Hl Hs. destruct o; cbn [lstep] in Hl; try discriminate; try contradiction.
-  1: solve [repeat match type of Hl with context [match ?x with _ => _ end] => destruct x end; discriminate].
+  all: try solve [repeat match type of Hl with context [match ?x with _ => _ end] => destruct x end; discriminate].
   all: cbn [step] in *.
   - (* OSelect *)
     destruct (nth_error p t) as [tb|] eqn:Et; [|discriminate].
@@ -548,13 +548,11 @@ Proof.
     destruct (selectrowid tb (idx_of_list rid)) as [r'|] eqn:Es; [|discriminate]. injection Hl as <-.
     repeat match goal with |- context [if ?c then _ else _] => destruct c; try discriminate end.
     rewrite (by_position_refines tb choice rid r' (winv_nth _ _ _ Hw Et) Er Es). reflexivity.
-  - destruct (nth_error p t); [|discriminate]. destruct (n <? 0)%Z; [discriminate|]. destruct (setlength _ _); discriminate.
-  - destruct (nth_error p t); [|discriminate]. destruct (all_some _); [|discriminate]. destruct (delrows _ _); discriminate.
 Qed.
 
 Theorem lstep_upd_refines (w : world) p o i r :
   pool w = map abs p -> winv p ->
-  match o with OSetCell _ _ _ _ => False | _ => True end ->
+  match o with OSetCell _ _ _ _ | ORename _ _ _ _ => False | _ => True end ->
   lstep p o = LUpd i r -> snd (step w o) = OkUnit -> fst (step w o) = put w i (abs r).
 Proof.
   intros Hp Hw Hno Hl Hs. destruct o; cbn [lstep] in Hl; try discriminate; try contradiction.
@@ -813,4 +811,85 @@ Proof.
   intros Hinv Hc Hin. destruct (inv_b_facts t Hinv) as (Hnd & _ & _ & Hcols & _).
   rewrite Forall_forall in Hcols. unfold sel_positions.
   apply positions_by_id_spec; [assumption|apply Hcols; assumption|assumption].
+Qed.
+
+(* ---------- rename: the regenerated guard chain decides exactly as the reference model ---------- *)
+Lemma set_nth_same_id {A} i (x : A) l : nth_error l i = Some x -> set_nth i x l = l.
+Proof.
+  revert i; induction l as [|a l IH]; intros [|i] H; cbn [set_nth nth_error] in *; try discriminate.
+  - injection H as ->. reflexivity.
+  - f_equal. apply IH. assumption.
+Qed.
+
+Lemma has_name_abs t n : has_name (abs t) n = match lookup n (l_names t) with Some _ => true | None => false end.
+Proof. reflexivity. Qed.
+
+Theorem rename_refines (w : world) p ti old new ident :
+  pool w = map abs p ->
+  match lstep p (ORename ti old new ident) with
+  | LUpd i r => step w (ORename ti old new ident) = (put w i (abs r), OkUnit)
+  | LErr => snd (step w (ORename ti old new ident)) = Err ValueError /\ fst (step w (ORename ti old new ident)) = w
+  | LSkip => nth_error p ti = None
+  | _ => False
+  end.
+Proof.
+  intros Hp. cbn [lstep step]. destruct (nth_error p ti) as [t|] eqn:Et; [|reflexivity].
+  rewrite (get_abs w p ti t Hp Et). rewrite !has_name_abs. unfold k_rename_decision.
+  destruct (String.eqb old new) eqn:Eeq.
+  - cbn. f_equal. unfold put. destruct w as [pl nf]. cbn [pool nextfam] in *. f_equal.
+    rewrite set_nth_same_id; [reflexivity|]. rewrite Hp, nth_error_map, Et. reflexivity.
+  - destruct (lookup old (l_names t)) as [io|]; cbn [negb]; [|split; reflexivity].
+    destruct (lookup new (l_names t)) as [inw|]; [split; reflexivity|].
+    destruct ident; cbn [negb]; [|split; reflexivity].
+    cbn. reflexivity.
+Qed.
+
+(* ---------- col[[i, j, ...]] = value: sequential range-checked writes (generated test) ---------- *)
+Lemma seqkey_oob_spec i n : k_seqkey_oob i (Z.of_nat n) = ((i <? 0)%Z || (Z.of_nat n <=? i)%Z).
+Proof. unfold k_seqkey_oob. rewrite Z.geb_leb. reflexivity. Qed.
+
+Lemma getrow_oob_spec i n : k_getrow_oob i (Z.of_nat n) = match norm_index n i with Some _ => false | None => true end.
+Proof.
+  unfold k_getrow_oob, norm_index. rewrite Z.geb_leb.
+  destruct (0 <=? i)%Z eqn:E1, (i <? Z.of_nat n)%Z eqn:E2, (i <? 0)%Z eqn:E3, (- Z.of_nat n <=? i)%Z eqn:E4,
+           (Z.of_nat n <=? i)%Z eqn:E5, (i <? - Z.of_nat n)%Z eqn:E6; cbn; try reflexivity; lia.
+Qed.
+
+Lemma write_list_k_spec n l : forall xs cells, write_list_k (Z.of_nat n) l xs cells = write_list n l xs cells.
+Proof.
+  induction l as [|i l IH]; intros [|x xs] cells; cbn [write_list_k write_list]; try reflexivity.
+  rewrite seqkey_oob_spec. destruct ((i <? 0)%Z || (Z.of_nat n <=? i)%Z); [reflexivity|apply IH].
+Qed.
+
+Theorem setcell_list_refines (w : world) p ti name l r :
+  pool w = map abs p -> winv p ->
+  match lstep p (OSetCell ti name (AList l) r) with
+  | LUpd i t' => step w (OSetCell ti name (AList l) r) = (put w i (abs t'), OkUnit)
+  | LErrUpd i t' => step w (OSetCell ti name (AList l) r) = (put w i (abs t'), Err PlainException)
+  | LErr => exists e, snd (step w (OSetCell ti name (AList l) r)) = Err e
+  | LSkip => True
+  | LNew _ => False
+  end.
+Proof.
+  intros Hp Hw. cbn [lstep]. destruct (nth_error p ti) as [t|] eqn:Et; [|exact I].
+  pose proof (winv_nth _ _ _ Hw Et) as Hinv. destruct (inv_b_facts t Hinv) as (_ & _ & _ & Hcols & _).
+  cbn [step]. rewrite (get_abs w p ti t Hp Et). unfold set_cells. change (names (abs t)) with (l_names t).
+  destruct (lookup name (l_names t)) as [ci|] eqn:El; [|eexists; reflexivity].
+  change (slots (abs t)) with (map slot_of_col (l_cols t)). rewrite nth_error_map.
+  destruct (nth_error (l_cols t) ci) as [c|] eqn:Ec; cbn [option_map]; [|exact I].
+  cbn [address]. change (skind (slot_of_col c)) with (lc_kind c). change (scells (slot_of_col c)) with (lc_cells c).
+  destruct (rhs_cells (lc_kind c) (List.length l) r) as [xs|e] eqn:Er; [|eexists; reflexivity].
+  assert (Hlen : List.length (lc_cells c) = nrows (abs t)).
+  { rewrite Forall_forall in Hcols. destruct (Hcols c (nth_error_In _ _ Ec)) as [_ Hl _]. exact Hl. }
+  rewrite Hlen, write_list_k_spec.
+  destruct (write_list (nrows (abs t)) l xs (lc_cells c)) as [cells ok] eqn:Ewl.
+  assert (Eabs : forall ok' : outcome, (put w ti (set_slot (abs t) ci {| skind := lc_kind c; scells := cells |}), ok')
+                 = (put w ti (abs {| l_fam := l_fam t; l_rowid := l_rowid t; l_names := l_names t;
+                                    l_cols := set_nth ci {| lc_kind := lc_kind c; lc_rowid := lc_rowid c; lc_cells := cells;
+                                                            lc_owner := lc_owner c; lc_tc := lc_tc c |} (l_cols t);
+                                    l_sorted := l_sorted t; l_dflt := l_dflt t |}), ok')).
+  { intros ok'. f_equal. f_equal. unfold abs, set_slot. cbn [fam ids names slots tsorted dflt l_fam l_rowid l_names l_cols l_sorted l_dflt].
+    f_equal. clear. revert ci. generalize (l_cols t) as cols. induction cols as [|a cols IH]; intros [|ci]; cbn [set_nth map]; try reflexivity.
+    f_equal. apply IH. }
+  destruct ok; apply Eabs.
 Qed.
